@@ -203,6 +203,18 @@ func addTenants(ss *scenarioSet, thorough bool) {
 	ss.add(Scenario{Name: "D8-empty-vs-absent", QB: 1, TB: 2, Signal: "traces", S: 2, Timeout: T, Early: true, Keys: keys, Limit: 0,
 		Callers: []CallerSpec{{Label: "A", Reqs: one("A", 1), Metadata: md("tenant", "")}, {Label: "B", Reqs: one("B", 1), Metadata: md("other", "x")},
 			{Label: "C", Reqs: one("C", 1)}}})
+	// a tenant that falls silent for g flush intervals and then comes back at the very moment of a
+	// tick (a shard must stay reachable for as long as a caller can still find it)
+	for _, early := range []bool{false, true} {
+		pack := Scenario{Name: "D5-idle-tenant/er" + bools(early), Bound: 1, TB: 2}
+		for g := 1; g <= 13; g++ {
+			sub := Scenario{Name: fmt.Sprintf("%s/gap%d", pack.Name, g), Signal: "traces", S: 4, Timeout: T, Early: early, Keys: keys, Limit: 0, NumCPU: 1, ShutdownAt: 16 * T,
+				Callers: []CallerSpec{{Label: "A", Gap: time.Duration(g) * T, Reqs: []Shape{simple("traces", "A", 1), simple("traces", "A2", 1)}, Metadata: md("tenant", "x")},
+					{Label: "B", ArriveAt: time.Duration(g)*T + T/2, Reqs: one("B", 1), Metadata: md("tenant", "x")}}}
+			pack.Pack = append(pack.Pack, &sub)
+		}
+		ss.add(pack)
+	}
 	// values that look alike once rendered: the string `["x","y"]` vs the two values x, y; the
 	// string "[]" vs no value at all; "x,y" vs x, y; (any textual encoding of the combination is suspect)
 	for i, pair := range [][2]map[string][]string{{md("tenant", `["x","y"]`), md("tenant", "x", "tenant", "y")}, {md("tenant", "[]"), nil},
